@@ -262,6 +262,17 @@ def shifted_track_ids(tracks, off):
     return SolutionTracks(g2, segmentation=seg, ndim=seg.ndim)
 
 
+def make_tracks_axes(times, edges):
+    """the same solution with the position stored per axis (attributes y, x)"""
+    from funtracks.data_model import SolutionTracks
+
+    g = nx.DiGraph()
+    for n, t in times.items():
+        g.add_node(n, time=t, y=float(n), x=0.5 * n)
+    g.add_edges_from(edges)
+    return SolutionTracks(g, ndim=3, pos_attr=["y", "x"])
+
+
 def run_csv(tracks, sel, path, seg_path=None):
     from funtracks.import_export import export_to_csv
 
@@ -321,8 +332,18 @@ def run(ctx):
         # ---- K: export_to_csv + filter_graph_with_ancestors on solution forests
         for fi in range(n_forests_k):
             times, edges, merged = gen_forest(rng)
-            tracks = make_tracks(times, edges)
-            g = tracks.graph
+            per_axis = rng.random() < 0.3
+            tracks = make_tracks_axes(times, edges) if per_axis else make_tracks(times, edges)
+            g = tracks.graph.copy() if per_axis else tracks.graph   # reference copy: the export must not prune the live graph
+            if per_axis:
+                # an earlier subset export of the same tracks object (GEFF, another selection) must not influence
+                # the later ones
+                stats["per_axis_with_earlier_export"] = stats.get("per_axis_with_earlier_export", 0) + 1
+                try:
+                    run_geff(tracks, set(gen_selection(rng, g, False)), root / ("pre%d" % fi))
+                except Exception:  # noqa: BLE001
+                    pass
+                shutil.rmtree(root / ("pre%d" % fi), ignore_errors=True)
             stats["merge_graphs"] += int(merged)
             sels = [gen_selection(rng, g, True) for _ in range(sel_per_forest)]
             if not quick and len(times) <= 6 and fi % 10 == 0:
